@@ -179,7 +179,7 @@ pub struct Names {
 impl Names {
     pub fn user(props: &[String]) -> Names {
         Names {
-            vars: ["x", "y", "z", "w"].iter().map(|s| s.to_string()).collect(),
+            vars: ["x", "y", "z", "w", "v4", "v5", "v6", "v7", "v8", "v9", "v10", "v11"].iter().map(|s| s.to_string()).collect(),
             props: props.to_vec(),
             wilds: ["p", "q", "r", "w0", "w1", "w2"].iter().map(|s| s.to_string()).collect(),
             doms: ["d", "e", "g"].iter().map(|s| s.to_string()).collect(),
@@ -188,7 +188,7 @@ impl Names {
     /// the names preprocessing assigns: x, xx, xxx by nesting level
     pub fn minimized(props: &[String]) -> Names {
         let mut n = Names::user(props);
-        n.vars = ["x", "xx", "xxx", "xxxx"].iter().map(|s| s.to_string()).collect();
+        n.vars = (1..=12).map(|i| "x".repeat(i)).collect();
         n
     }
 }
@@ -860,4 +860,26 @@ pub fn plain_pool(nm: &Names) -> Vec<F> {
     p.sort();
     p.dedup();
     p
+}
+
+/// Deterministic deep quantifier nests (d quantifiers on one branch, d = 4..=max): every variable is
+/// used; jumps to the outermost / a middle / the innermost variable; three operator mixes.
+pub fn deep_nests(nm: &Names, max: usize) -> Vec<F> {
+    let mut out = vec![];
+    for d in 4..=max {
+        for variant in 0..3usize {
+            let v = |i: usize| format!("{{{}}}", nm.vars[i]);
+            let mut q = String::new();
+            for i in 0..d {
+                q.push_str(&format!("{}{}: ", ["!", "3", "V"][(i + variant) % 3], v(i)));
+            }
+            let body = match variant {
+                0 => format!("(@{}: EX {}) | ({} & AX {})", v(0), v(d - 1), v(d / 2), v(0)),
+                1 => format!("(@{}: (EF {} & ~{})) | (@{}: AX {})", v(d - 1), v(0), v(d - 2), v(d / 2), v(d - 1)),
+                _ => format!("(@{}: AG EF {}) & (EX {} | {} | ~{})", v(1), v(d - 1), v(d - 1), v(d - 2), v(0)),
+            };
+            out.push(f(&format!("{q}{body}"), nm));
+        }
+    }
+    out
 }
